@@ -524,7 +524,7 @@ func TestVerifC04(t *testing.T) {
 	rep.Count("exhaustive_histories", count)
 
 	// random histories
-	nrand := verifkit.Pick(60, 600)
+	nrand := verifkit.Pick(180, 900)
 	for i := 0; i < nrand && rep.ViolationCount() < 300; i++ {
 		typ := protocoltypes.GroupType_GroupTypeAccount
 		ops := all
